@@ -14,7 +14,7 @@ LEVEL = "model_checking"
 MANIFEST = dict(
     engine="tlc-datagram", path="spec/Datagram",
     technique="TLA+ monitor + implementation/kernel model checked exhaustively by TLC; TLC-generated transition cover and random histories replayed on real UDP sockets (multicast on the multicast-capable interface, unicast on loopback); recorded traces validated by TLC against the monitor",
-    text="Exhaustive TLC check of DatagramImpl composed with DatagramMon in narrow configurations: membership (1-2 receivers bound to :P / <group>:P / <interface address>:P, 2 groups, sources {real, phantom}, every sequence of Join/JoinSource/Leave/LeaveSource/Block/Unblock and traffic up to the tier's depth), reads (sync and async, inline vs parked at the dispatch limit, SetAsyncReadBuffer, truncating buffer), writer and settings (Write/AsyncWrite, SetLoop/SetTTL/SetOutboundIPv4), packet connection (all bind forms, 2-3 senders, ReadFrom/AsyncReadFrom/AsyncReadAllFrom, WriteTo/AsyncWriteTo). Every transition of these graphs (shortest path + edge) and seeded random long histories (bursts, sizes 1..65507 in classes) are replayed on real sockets; reads' bytes/length/source address/buffer, datagrams seen by raw receivers (count, bytes, destination via IP_PKTINFO) and getters next to getsockopt/getsockname are recorded and validated by TLC against the monitor. Verdicts come only from recorded real-code traces.",
+    text="Exhaustive TLC check of DatagramImpl composed with DatagramMon in narrow configurations: membership (1-2 receivers bound to :P / <group>:P / <interface address>:P, 2 groups, sources {real, phantom}, every sequence of Join/JoinSource/Leave/LeaveSource/Block/Unblock and traffic up to the tier's depth), reads (sync and async, inline vs parked at the dispatch limit, SetAsyncReadBuffer, truncating buffer), writer and settings (Write/AsyncWrite, SetLoop/SetTTL/SetOutboundIPv4), packet connection (all bind forms, 2-3 senders, ReadFrom/AsyncReadFrom/AsyncReadAllFrom, WriteTo/AsyncWriteTo, oversize writes), unicast to a multicast peer, bursts longer than the dispatch limit read by chained AsyncReads, all constructor bind forms. Every transition of these graphs (shortest path + edge) and seeded random long histories (bursts, sizes 1..65507 in classes) are replayed on real sockets; reads' bytes/length/source address/buffer, datagrams seen by raw receivers (count, bytes, destination via IP_PKTINFO) and getters next to getsockopt/getsockname are recorded and validated by TLC against the monitor. Verdicts come only from recorded real-code traces.",
     note="Trusted: TLC, the Go driver (payload generator/projection, raw sockets, sentinel ordering on one pinned CPU), the kernel. Only one real source address exists, source filters are exercised with {that address, an address nobody sends from}. Without a multicast-capable interface the check exits 2. IPv6 and BSD paths are outside.",
     design_ref="5/C12")
 
@@ -36,21 +36,25 @@ def cfgs(tier):
         # name, constants, keep one edge in `every` (1 = all)
         ("membership-1rcv", dict(NR=1, Binds='{"any", "grp", "if"}', MaxSteps=4 if q else 5), 2 if q else 1),
         ("membership-2rcv", dict(NR=2, Binds='{"any", "grp"}', MaxSteps=3 if q else 4), 2),
-        ("membership-2rcv-deep", dict(NR=2, Binds='{"any"}', MaxSteps=4 if q else 5), 6 if q else 3),
+        ("membership-2rcv-deep", dict(NR=2, Binds='{"any"}', MaxSteps=4 if q else 5), 6 if q else 4),
         ("constructors", dict(NR=1, Binds='{"empty0", "lo0", "if0", "grp0", "any", "grp", "if"}', WBinds='{"any0", "if0"}',
                               Acts='{"mem", "send", "wr", "wset"}', MaxSteps=2), 2 if q else 1),
         ("reads", dict(NG=1, NS=2, PreJoin="TRUE", Acts=RD, MaxSteps=5 if q else 7), 1 if q else 4),
+        ("unicast-to-peer", dict(NR=2, NG=1, NS=2, Binds='{"solo", "any"}', Acts='{"mem", "send", "uni", "rd", "sync", "chain"}',
+                                 MaxSteps=3 if q else 4), 4 if q else 6),
         ("reads-2rcv", dict(NR=2, NG=1, PreJoin="TRUE", Acts=RD, MaxSteps=4 if q else 5), 1 if q else 2),
         ("burst-pc", dict(Kind='"pc"', Binds='{"lo"}', NS=2, NG=1, Acts=BURST, MaxSteps=3 if q else 4), 2 if q else 4),
         ("burst-mc", dict(NR=2, NG=1, PreJoin="TRUE", Acts=BURST, MaxSteps=3 if q else 4), 2 if q else 4),
         ("writer", dict(NG=1, PreJoin="TRUE", WBinds='{"any0", "if0"}', Acts=WR, MaxSteps=4 if q else 5), 6),
-        ("packetconn", dict(Kind='"pc"', Binds=PCBINDS, NS=2 if q else 3, NG=1, Acts=PC, MaxSteps=4 if q else 5), 8),
+        ("packetconn", dict(Kind='"pc"', Binds=PCBINDS, NS=2, NG=1, Acts=PC, MaxSteps=4 if q else 5), 8 if q else 12),
     ]
     sims = [
-        ("random-mc", dict(NR=2, NS=2, Binds='{"any", "grp"}', WBinds='{"any0", "if0"}', Acts=ALLMC, MaxSteps=16, MaxHist=44), 120 if q else 4000, "big"),
-        ("random-mc-joined", dict(NR=2, Binds='{"any"}', PreJoin="TRUE", Acts=ALLMC, MaxSteps=20, MaxHist=52), 80 if q else 3000, "big"),
-        ("random-pc", dict(Kind='"pc"', Binds=PCBINDS, NS=3, NG=1, Acts=PC, MaxSteps=30, MaxHist=64), 120 if q else 4000, "big"),
+        ("random-mc", dict(NR=2, NS=2, Binds='{"any", "grp"}', WBinds='{"any0", "if0"}', Acts=ALLMC, MaxSteps=16, MaxHist=44), 120 if q else 2500, "big"),
+        ("random-mc-joined", dict(NR=2, Binds='{"any"}', PreJoin="TRUE", Acts=ALLMC, MaxSteps=20, MaxHist=52), 80 if q else 1500, "big"),
+        ("random-pc", dict(Kind='"pc"', Binds=PCBINDS, NS=3, NG=1, Acts=PC, MaxSteps=30, MaxHist=64), 120 if q else 2500, "big"),
     ]
+    if not q:
+        cover.append(("packetconn-3senders", dict(Kind='"pc"', Binds='{"lo", "empty"}', NS=3, NG=1, Acts=PC, MaxSteps=4), 4))
     strict = [] if q else [
         ("membership-exhaustive", dict(NR=2, Binds='{"any", "grp"}', MaxSteps=6)),
         ("all-actions-exhaustive", dict(NR=2, Binds='{"any"}', Acts=ALLMC, MaxSteps=4)),
